@@ -3291,6 +3291,44 @@ func (ck *Check) cacheSynced(rule string) {
 		}
 		okH := sp != nil
 		why := ""
+		// values are followed through the parameters of a helper the answer comes from and through
+		// the variables a closure captured (by reference: the one store into the captured local)
+		env := map[*ssa.Parameter]ssa.Value{}
+		fenv := map[*ssa.FreeVar]ssa.Value{}
+		var resolve func(v ssa.Value, d int) ssa.Value
+		resolve = func(v ssa.Value, d int) ssa.Value {
+			if d > 6 {
+				return v
+			}
+			switch y := v.(type) {
+			case *ssa.Parameter:
+				if b, ok := env[y]; ok && b != v {
+					return resolve(b, d+1)
+				}
+			case *ssa.FreeVar:
+				if b, ok := fenv[y]; ok {
+					return resolve(b, d+1)
+				}
+			case *ssa.UnOp:
+				if y.Op == token.MUL {
+					base := resolve(y.X, d+1)
+					if al, ok := base.(*ssa.Alloc); ok {
+						var only ssa.Value
+						n := 0
+						for _, r := range *al.Referrers() {
+							if st, ok := r.(*ssa.Store); ok && st.Addr == ssa.Value(al) {
+								n++
+								only = st.Val
+							}
+						}
+						if n == 1 {
+							return resolve(only, d+1)
+						}
+					}
+				}
+			}
+			return v
+		}
 		var trace func(v ssa.Value, seen map[ssa.Value]bool) bool
 		trace = func(v ssa.Value, seen map[ssa.Value]bool) bool {
 			if seen[v] {
@@ -3309,7 +3347,47 @@ func (ck *Check) cacheSynced(rule string) {
 				return true
 			case *ssa.Call:
 				f := x.Common().StaticCallee()
-				return f != nil && f.Name() == "WaitForCacheSync" && strings.HasSuffix(pkgPathOfFn(f), "client-go/tools/cache") && len(x.Common().Args) == 2 && x.Common().Args[1] == ssa.Value(sp)
+				if f != nil && f.Name() == "WaitForCacheSync" && strings.HasSuffix(pkgPathOfFn(f), "client-go/tools/cache") && len(x.Common().Args) == 2 {
+					return resolve(x.Common().Args[1], 0) == ssa.Value(sp)
+				}
+				// a retry helper of the repo handed the attempt: every answer it returns is traced with
+				// its parameters bound to what it was handed
+				if f != nil && ck.P.inRepo(f) && f.Blocks != nil && f != helper && f.Signature.Results().Len() == 1 && len(x.Common().Args) == len(f.Params) {
+					for i, p := range f.Params {
+						env[p] = resolve(x.Common().Args[i], 0)
+					}
+					for _, b := range f.Blocks {
+						if r, ok := b.Instrs[len(b.Instrs)-1].(*ssa.Return); ok && len(r.Results) == 1 {
+							if !trace(r.Results[0], seen) {
+								return false
+							}
+						}
+					}
+					return true
+				}
+				// the attempt itself: a call of a function-valued parameter bound to a closure
+				if f == nil {
+					if mc, ok := resolve(x.Common().Value, 0).(*ssa.MakeClosure); ok {
+						cf, _ := mc.Fn.(*ssa.Function)
+						if cf == nil || cf.Blocks == nil {
+							return false
+						}
+						for i, fv := range cf.FreeVars {
+							if i < len(mc.Bindings) {
+								fenv[fv] = mc.Bindings[i]
+							}
+						}
+						for _, b := range cf.Blocks {
+							if r, ok := b.Instrs[len(b.Instrs)-1].(*ssa.Return); ok && len(r.Results) == 1 {
+								if !trace(r.Results[0], seen) {
+									return false
+								}
+							}
+						}
+						return true
+					}
+				}
+				return false
 			}
 			return false
 		}
